@@ -275,8 +275,19 @@ def run(ctx):
             "jacobian-columns": z3.And(*[z3.And(J[d][0] == u[d], J[d][1] == w[d]) for d in range(3)]),
             "jac-inv-trans": z3.And(*[sum(J[d][i] * Jit[d][j] for d in range(3)) == (1 if i == j else 0) for i in range(2) for j in range(2)]),
             "centroid": z3.And(*[3 * cen[d] == a[d] + bb[d] + c[d] for d in range(3)]),
-            "diameter": z3.And(diam >= 0, diam * diam * cr2 == e2(a, bb) * e2(a, c) * e2(bb, c)),
         }
+        # circumdiameter = |a-b| |a-c| |b-c| / |u x w|, stated with the harness's own norms (sqrt atoms of the harness's
+        # expressions; congruence identifies them with the atoms the real code created) so that the solver only needs
+        # inv(r) * r = 1 instead of squaring a product of four irrational terms
+        Vs = [[V[d, i] for d in range(3)] for i in range(3)]
+        nrm = lambda p, q: sum(((p[d] - q[d]) * (p[d] - q[d]) for d in range(3)), ZERO).sqrt()
+        us, ws = [Vs[1][d] - Vs[0][d] for d in range(3)], [Vs[2][d] - Vs[0][d] for d in range(3)]
+        crs = [us[1] * ws[2] - us[2] * ws[1], us[2] * ws[0] - us[0] * ws[2], us[0] * ws[1] - us[1] * ws[0]]
+        rcr = (crs[0] * crs[0] + crs[1] * crs[1] + crs[2] * crs[2]).sqrt()
+        prod = nrm(Vs[0], Vs[1]) * nrm(Vs[0], Vs[2]) * nrm(Vs[1], Vs[2])
+        claims["diameter"] = z3.And(diam >= 0, diam * term(rcr) == term(prod))
+        names = ABS.atoms_in([vol, ie, diam, term(rcr), term(prod)] + n + [x for r in Jit for x in r])
+        hyps = nondeg + [s >= 0 for s in ABS.sqrt_args(names)]
         for nm, cl in claims.items():
             ctx.prove("G4/%s" % nm, cl, hyps, family="geometry", params={"claim": nm}, abs_cons="cone", group="G4-geometry")
         ctx.expect_sat("G4/witness", hyps, abs_cons="cone", group="G4-geometry")
